@@ -47,6 +47,8 @@ def main():
                 return {"domestic_bank_codes": b.domestic_bank_codes, "exists": b.exists, "bank_names": b.bank_names,
                         "bank_short_names": b.bank_short_names}
             out.append(guard(f))
+        elif k == "bic_verdict":
+            out.append(guard(lambda: str(BIC(op["text"], enforce_swift_compliance=op.get("strict", False)))))
         elif k == "iban_verdict":
             out.append(guard(lambda: str(IBAN(op["text"], validate_bban=op.get("validate_bban", False)))))
         elif k == "iban_info":
